@@ -504,7 +504,7 @@ func RunProperty(id, tier string, seed int64) int {
 			if h.WallBudgetMs == 0 {
 				// a run that needs longer than this is reported as an exhausted bound
 				// (inconclusive), never as success
-				h.WallBudgetMs = 900000
+				h.WallBudgetMs = 1500000
 				if tier == "thorough" {
 					h.WallBudgetMs = 2400000
 				}
